@@ -124,6 +124,41 @@ func verifTableEvent(v *verifSrv, ev int, id krpc.ID, addr *net.UDPAddr) {
 	}
 }
 
+// One step from a bucket of the real size K=8 holding 7 or 8 contacts (all good but the last, which is
+// good, bad or never-answered), under every event, ID choice and address form.
+func VerifC05_Step8() {
+	verifLimiterAlwaysGrants()
+	v := verifStartServer(verifSrvOpt{noSecurity: true, concreteID: true})
+	verifFreezeClock(true)
+	n := verifChoice(7, 8)
+	for i := 0; i < n; i++ {
+		st := verifGood
+		if i == n-1 {
+			st = []int{verifGood, verifFailedPing, verifQueriedOnly}[verifChoice(0, 2)]
+		}
+		ad := &net.UDPAddr{IP: net.IP{198, 51, 100, byte(20 + i)}, Port: 3000 + i}
+		if i == 0 {
+			ad = verifTableAddr(0)
+		}
+		verifAddContact(v, verifContact{state: st, bucket: 4, id: verifConcreteIDInBucket(v.id, 4, byte(i+1)), addr: ad})
+	}
+	verifTableInvariant(v.s)
+	var id krpc.ID
+	switch verifChoice(0, 3) {
+	case 0:
+		id = verifConcreteIDInBucket(v.id, 4, 1)
+	case 1:
+		id = verifConcreteIDInBucket(v.id, 4, 77)
+	case 2:
+		id = v.id
+	case 3:
+	}
+	verifTableEvent(v, verifChoice(0, 4), id, verifTableAddr(verifChoice(0, 3)))
+	verifTableInvariant(v.s)
+	verifAssert(v.s.NumNodes() <= 8, "C05: the bucket never holds more than K=8 entries")
+	verifReach("end")
+}
+
 func verifC05History(steps, k int, ids []int) {
 	verifLimiterAlwaysGrants()
 	v := verifStartServer(verifSrvOpt{noSecurity: true})
